@@ -203,14 +203,14 @@ func (tx *Transaction) Commit(ctx context.Context, scope *ReferenceScope, expr p
 
 	for _, f := range createFileInfo {
 		if err := tx.FileContainer.Commit(f.Handler); err != nil {
-			return NewCommitError(expr, err.Error())
+			return tx.abortCommit(scope, expr, err)
 		}
 		tx.UncommittedViews.Unset(f)
 		tx.LogNotice(fmt.Sprintf("Commit: file %q is created.", f.Path), tx.Flags.Quiet)
 	}
 	for _, f := range updateFileInfo {
 		if err := tx.FileContainer.Commit(f.Handler); err != nil {
-			return NewCommitError(expr, err.Error())
+			return tx.abortCommit(scope, expr, err)
 		}
 		tx.UncommittedViews.Unset(f)
 		tx.LogNotice(fmt.Sprintf("Commit: file %q is updated.", f.Path), tx.Flags.Quiet)
@@ -226,6 +226,21 @@ func (tx *Transaction) Commit(ctx context.Context, scope *ReferenceScope, expr p
 		return NewCommitError(expr, err.Error())
 	}
 	return nil
+}
+
+// abortCommit ends the transaction after a file could not be put in place. The files replaced before stay
+// committed; the handler that failed cannot be used again, so what is left is discarded as ROLLBACK does
+// and the error of the failed replacement is reported.
+func (tx *Transaction) abortCommit(scope *ReferenceScope, expr parser.Expression, cause error) error {
+	if scope != nil {
+		scope.RestoreTemporaryTable(tx.UncommittedViews.UncommittedTempViews())
+	}
+	tx.UncommittedViews.Clean()
+	tx.UnlockStdin()
+	if err := tx.ReleaseResources(); err != nil {
+		return NewCommitError(expr, cause.Error()+"; "+err.Error())
+	}
+	return NewCommitError(expr, cause.Error())
 }
 
 func (tx *Transaction) Rollback(scope *ReferenceScope, expr parser.Expression) error {
@@ -265,15 +280,14 @@ func (tx *Transaction) quietForTemporaryViews(expr parser.Expression) bool {
 }
 
 func (tx *Transaction) ReleaseResources() error {
-	if err := tx.CachedViews.Clean(tx.FileContainer); err != nil {
-		return err
-	}
-	if err := tx.FileContainer.CloseAll(); err != nil {
-		return err
+	// Every step is taken whatever the steps before it report; the first error is returned.
+	err := tx.CachedViews.Clean(tx.FileContainer)
+	if e := tx.FileContainer.CloseAll(); e != nil && err == nil {
+		err = e
 	}
 	tx.UnlockStdin()
 	tx.ClearUrlCache()
-	return nil
+	return err
 }
 
 func (tx *Transaction) ReleaseResourcesWithErrors() error {
